@@ -360,19 +360,19 @@ FIXED = [
 	{'law': 'pair', 'kind': '()', 'delim': ',', 'text': 'a(b, "c, d")', 'expect': [['b', '"c, d"']], 'tags': []},
 	{'law': 'deco', 'path': 'Embed.alias', 'pos': ['"A"'], 'labelled': [['prefix', 'true']], 'tags': []},
 	{'law': 'param', 'var_type': 'const std::string&', 'name': 's', 'default': '""', 'tags': []},
+	# witnesses of defects fixed in /repo (known_findings.json, status=fixed): a regression is a fresh violation
+	{'law': 'sep', 'delim': ',', 'text': 'cy , x, "(b" , \'b xxz\'', 'tags': ['str:unbalbr']},
+	{'law': 'sep', 'delim': ' ', 'text': '{} "it\'s" {Cz::aq} y(_0a.B)', 'tags': ['str:otherquote']},
+	{'law': 'last', 'kind': '<>', 'prefix': '', 'inner': 'Bz<bc>."a>"', 'tags': ['str:unbalbr']},
+	{'law': 'bracket', 'kind': '()', 'text': '(yb(()))', 'tags': ['grp:()']},
+	{'law': 'bracket', 'kind': '<>', 'text': '<<<Czz0cc>>>', 'tags': ['grp:<>']},
+	{'law': 'deco', 'path': 'y', 'pos': ['{A11 = azbcy1}'], 'labelled': [], 'tags': ['grp:{}']},
+	{'law': 'deco', 'path': 'z._z', 'pos': ["'a=abb'"], 'labelled': [['k', 'f(a=1)']], 'tags': ['str:delims']},
 ]
 
 
 def classify(v: dict) -> str | None:
-	tags = set(v['case'].get('tags', []))
-	kind = v['kind']
-	if 'str:unbalbr' in tags:
-		return 'bracket-char-inside-quoted-string'
-	if 'str:otherquote' in tags:
-		return 'other-quote-char-inside-quoted-string'
-	if 'str:escquote' in tags:
-		return 'escaped-quote-inside-quoted-string'
-	return None
+	return None  # no open finding for C18 (three defects were fixed in /repo, see known_findings.json)
 
 
 def check_one(acc: Acc, case: dict) -> None:
